@@ -179,8 +179,10 @@ def witness_case(src, ctx_pos, expr, namespaces, amb="default"):
     tup = xpath_ast.to_tuple(parse(expr))
     acc = accepted(tup)
     bad = []
+    pre_nodes = None
     try:
-        pre_count = len(node.xpath(expr, namespaces=namespaces))
+        pre_nodes = list(node.xpath(expr, namespaces=namespaces))
+        pre_count = len(pre_nodes)
     except Exception:       # noqa: BLE001
         pre_count = None
     missing = missing_steps(node, expr, namespaces) if acc else None
@@ -211,8 +213,12 @@ def witness_case(src, ctx_pos, expr, namespaces, amb="default"):
             bad.append("an accepted expression raises %s" % out[1])
         if acc and pre_count is not None and pre_count >= 2 and out[1] != "AmbiguousTreeError":
             bad.append("several matching branches but no AmbiguousTreeError")
+        if acc and pre_count == 1:
+            bad.append("the expression selects exactly one node but the call raises %s instead of returning it" % out[1])
         return bad, out, before, after, after_tree, acc
     got = out[1]
+    if acc and pre_count == 1 and pre_nodes[0] is not got:
+        bad.append("the expression selected exactly one node but another one is returned")
     if not acc:
         bad.append("a not-accepted expression is not rejected")
     if pre_count is not None and pre_count >= 2:
@@ -310,13 +316,7 @@ def run(ctx, args):
             amb = rng.choice(["default"] * 6 + ["none", "text", "comment", "tag"])
             bad, out, before, after, after_tree, acc = witness_case(src, pos, expr, namespaces, amb)
             small = {"doc": src, "ctx": list(pos), "expr": expr, "namespaces": namespaces, "ambient": amb}
-            # the open finding concerns the creation walk; an expression that already selects a node is answered by the
-            # shielded first query whatever the ambient filter
-            try:
-                exists_already = len(d0.root.xpath("/" + "/".join("*[%d]" % (i + 1) for i in pos[1:]) if len(pos) > 1 else ".")[0].xpath(expr, namespaces=namespaces)) >= 1
-            except Exception:       # noqa: BLE001
-                exists_already = False
-            classes = ["ambient-filter-hides-tags"] if (amb in ("text", "comment") and not exists_already) else []
+            classes = []
             if dict(m_eval).get("", "") or dict(m_create).get("", ""):
                 classes.append("default-namespace-in-effect")
             used = set()
@@ -350,7 +350,7 @@ def run(ctx, args):
                 classes.append("undeclared-prefix-after-creation")
             for b in bad:
                 ctx.fail(b, dict(small, classes=classes, outcome=out),
-                         classify if ("ambient-filter-hides-tags" in classes) else None)
+                         None)
             ctx.sample(dict(small, outcome=out[0] + (":" + str(out[1]))))
             # ---- the model on the same case
             key = t0.coq()          # inlined: a preamble with one definition per case would be re-read by every file
